@@ -59,7 +59,8 @@ def approx_args_from(args):
             if not ok:
                 mask[r, c] = 1
                 dr[r, c] = 0
-    return [cv, dr, mask, d_min, d_max, subpixel, measure, method]
+    # contiguous copy: one of the argument layouts the parent has already specialised the kernel for
+    return [np.ascontiguousarray(cv), dr, mask, d_min, d_max, subpixel, measure, method]
 
 
 class C18:
@@ -68,6 +69,7 @@ class C18:
     budgets = {"quick": 700, "thorough": 30000}
     scenario_timeout = 2400
     warm_refinement = True
+    warm_approx_refinement = True
 
     def setup(self):
         found = set(prange_sim.discover())
